@@ -39,6 +39,11 @@ def strict_readout(rng, ids: IdSource | None = None, n_lines: int | None = None,
     if ids is not None:
         lines.append(b"0-0:96.1.0(" + ids.next() + b")")
     lines += [data_line(rng, ids) for _ in range(n_lines)]
+    if rng.random() < 0.08:
+        # one long line (e.g. the DSMR text message 0-0:96.13.0 with up to 2048 hex digits); the readout stays well below 8 KiB
+        lines.insert(rng.randint(0, len(lines)), b"0-0:96.13.0(" + bytes(rng.choice(b"0123456789ABCDEF") for _ in range(rng.choice((1000, 1030, 2048, 3000)))) + b")")
+        while sum(map(len, lines)) > 6500 and len(lines) > 1:
+            lines.pop(0 if not lines[0].startswith(b"0-0:96.13.0(") else 1)
     blank = rng.random() < 0.7
     return p1_ref.build_readout(ident, lines, eol, checksum, blank)
 
